@@ -1,12 +1,17 @@
 import Mdsort.Proofs.Lex
 import Mdsort.Proofs.World
+import Mdsort.Proofs.ConfErrors
+import Mdsort.Proofs.ConfRT5
 
 /-!
 # C14 - a configuration is accepted or rejected as a whole, and the parser is total
 
 `Model.lex1` transcribes the lexer of parse.y and is compared token by token with the real `yylex`
-as the real LALR parser drives it.  The LALR automaton itself (generated by bison) is not modelled:
-acceptance and rejection of whole configurations are decided on the real binary by the check.
+as the real LALR parser drives it.  `Model.parseConfig` (Model/Conf.lean) transcribes the grammar of
+parse.y with its semantic actions, reading its lookahead where the automaton bison generates does;
+it is compared with the real parser on accept/reject, the line of the first diagnostic, the trees
+(with `ex_lno`) and the number of `yylex` calls.  Not modelled: error recovery after the first
+diagnostic, and bison's stack limit of 10000 states.
 -/
 
 namespace Mdsort.Props
@@ -46,5 +51,201 @@ theorem C14_int_literals (sflag : Bool) (n : Nat) (rest : Bytes) (hr : ∀ c, re
     let r := lex1 false sflag false ((toString n).toUTF8.toList ++ rest)
     (n < 2 ^ 32 → r = { tok := .int n, rest := rest, errors := 0 }) ∧ (n ≥ 2 ^ 32 → r.errors ≥ 1 ∧ r.rest = rest) :=
   Proofs.lex_int sflag n rest hr
+
+/-! ## The parser (Model/Conf.lean: the grammar of parse.y with its semantic actions) -/
+
+/-- Totality and progress: `parseConfig` is a total function on all byte strings (by construction:
+structural recursion on a budget of `input.length + 1`), never exhausts that budget - so its result
+is always an acceptance or a first diagnostic, or the refusal of the `-D` options - and calls the lexer at
+most `input.length + 1` times, whatever the bytes, the home directory, the `-D` macros and the
+regex library are. -/
+theorem C14_parser_total (home : Bytes) (defs : List (Bytes × Bytes)) (rxOk : Pat → Bool) (input : Bytes) :
+    parseConfig home defs rxOk input ≠ .fuel ∧
+    (parseConfigFull home defs rxOk input).nlex ≤ input.length + 1 :=
+  ⟨(Proofs.Conf.parseConfigFull_spec home defs rxOk input).1, (Proofs.Conf.parseConfigFull_spec home defs rxOk input).2.1⟩
+
+/-- What is accepted is well formed: every block of an accepted configuration has the shape the
+manual describes (`Spec.wfK`), has at least one action, and uses `reject` only when all its paths are
+stdin - for every input. -/
+theorem C14_accepted_well_formed (home : Bytes) (defs : List (Bytes × Bytes)) (rxOk : Pat → Bool) (input : Bytes)
+    (blocks : List PBlock) (h : parseConfig home defs rxOk input = .ok blocks) :
+    ∀ b ∈ blocks, Spec.blockOK rxOk b = true :=
+  Proofs.Conf.accepted_block h
+
+/-- Error classes at tree level: a configuration whose tree contains, anywhere (any block, any nesting
+depth, next to whatever else), one of these defects is not accepted.  Stated positively for every node
+`t` of every block of every accepted configuration:
+* a rule has either a nested block containing an action ("empty nested match block"), or a non-empty
+  list of actions ("missing action") in which `discard` and `reject` are alone ("cannot be combined");
+* an age is below 2^32 seconds ("integer too large": `n * unit ≥ 2^32`);
+* `exec body` has `stdin` ("invalid exec options");
+* patterns compile ("invalid pattern");
+* the rules of an `attachment { }` action have no action but `exec`. -/
+theorem C14_error_classes_tree (home : Bytes) (defs : List (Bytes × Bytes)) (rxOk : Pat → Bool) (input : Bytes) (t : CTree)
+    (h : Proofs.Conf.AcceptedNode home defs rxOk input t) :
+    (∀ l c r, t = .mtch l c r →
+      (Spec.isBlock r = true ∧ r.countActions > 0) ∨
+      (Spec.isBlock r = false ∧ r.countActions ≥ 1 ∧
+        (r.countActions > 1 → r.countLeaf Expr.isDiscard = 0 ∧ r.countLeaf Expr.isReject = 0))) ∧
+    (∀ l f c age, t = .leaf (.date l f c age) → age < 2 ^ 32) ∧
+    (∀ l si bo argv, t = .leaf (.exec l si bo argv) → bo = true → si = true) ∧
+    (∀ l p, t = .leaf (.body l p) → rxOk p = true) ∧
+    (∀ l ns p, t = .leaf (.header l ns p) → rxOk p = true) ∧
+    (∀ l b, t = .attBlock l b → b.countActions ≤ b.countLeaf Expr.isExec) :=
+  ⟨fun _ _ _ e => Proofs.Conf.node_rule (e ▸ h), fun _ _ _ _ e => Proofs.Conf.node_date (e ▸ h),
+   fun _ _ _ _ e => Proofs.Conf.node_exec (e ▸ h), fun _ _ e => Proofs.Conf.node_body (e ▸ h),
+   fun _ _ _ e => Proofs.Conf.node_header (e ▸ h), fun _ _ e => Proofs.Conf.node_attBlock (e ▸ h)⟩
+
+/-- Error classes at block level: no accepted configuration has a block without action ("empty match
+block") or a `reject` in a block with a path other than stdin ("reject cannot be used outside stdin"). -/
+theorem C14_error_classes_block (home : Bytes) (defs : List (Bytes × Bytes)) (rxOk : Pat → Bool) (input : Bytes)
+    (blocks : List PBlock) (h : parseConfig home defs rxOk input = .ok blocks) (b : PBlock) (hb : b ∈ blocks) :
+    b.tree.countActions > 0 ∧
+    ((b.paths.any fun p => !isStdinStr p) = true → b.tree.countLeaf Expr.isReject = 0) := by
+  have := Proofs.Conf.accepted_block h b hb
+  simp only [Spec.blockOK, Bool.and_eq_true, decide_eq_true_eq, Bool.or_eq_true, Bool.not_eq_true', beq_iff_eq] at this
+  refine ⟨this.1.2, fun hp => ?_⟩
+  rcases this.2 with h2 | h2
+  · rw [hp] at h2; cases h2
+  · exact h2
+
+/-- Error class "stdin already defined": whenever the parser meets the keyword `stdin` at the top
+level after a block that reads from stdin, it reports a diagnostic on the line of that keyword -
+whatever precedes and follows. -/
+theorem C14_error_second_stdin (cx : PCtx) (fuel : Nat) (blocks : List PBlock) (s : PState)
+    (hla : s.la = some (.kw .stdin)) (hany : blocks.any (fun b => b.paths.any isStdinStr) = true) :
+    parseTop cx (fuel + 1) blocks s = .err s.tokLine { s with la := none } :=
+  Proofs.Conf.second_stdin cx fuel blocks s hla hany
+
+/-- Error classes "unknown macro used in string" and "macro used in wrong context": a string
+`pre ${name} post` (no `$` in `pre`, no `}` in `name`) cannot be expanded when `name` is not defined and
+is not `path` - in any context - and when `name` is `path` outside an action. -/
+theorem C14_error_macro_reference (action : Bool) (ms : List Macro) (name pre post acc : Bytes) (fuel : Nat)
+    (hname : (125 : UInt8) ∉ name) (hpre : (36 : UInt8) ∉ pre) (hf : pre.length < fuel) :
+    (isPathMacro name = false → (∀ m ∈ ms, m.name ≠ name) →
+      expandMacros action fuel (pre ++ 36 :: 123 :: (name ++ 125 :: post)) ms acc = none) ∧
+    (isPathMacro name = true →
+      expandMacros false fuel (pre ++ 36 :: 123 :: (name ++ 125 :: post)) ms acc = none) :=
+  ⟨fun hnp hun => Proofs.Conf.expandMacros_bad_ref action ms name post hname (Or.inr ⟨hnp, hun⟩) pre acc fuel hpre hf,
+   fun hp => Proofs.Conf.expandMacros_bad_ref false ms name post hname (Or.inl ⟨hp, rfl⟩) pre acc fuel hpre hf⟩
+
+/-- Error class "unused macro": when the grammar accepts the file but a macro - defined in the file or
+with `-D` - was never referenced, the configuration is rejected with the line of the definition (0 for
+`-D`). -/
+theorem C14_error_macro_unused (home : Bytes) (defs : List (Bytes × Bytes)) (rxOk : Pat → Bool) (input : Bytes) (ms : List Macro)
+    (blocks : List PBlock) (s : PState) (m : Macro) (hd : macrosOfDefs defs [] = some ms)
+    (hp : parseTop { nl := countNl input, home := home, rxOk := rxOk } (input.length + 1) [] { rest := input, macros := ms } = .ok blocks s)
+    (hu : firstUnused s.macros = some m) :
+    parseConfig home defs rxOk input = .error m.lno :=
+  Proofs.Conf.unused_macro_rejected home defs rxOk input ms blocks s m hd hp hu
+
+/-! Non-vacuity of the hypotheses above, on concrete files. -/
+
+/-- An accepted file (hypothesis of `C14_accepted_well_formed`, `C14_error_classes_block`). -/
+example : ∃ b bs, parseConfig [] [] (fun _ => true)
+    "maildir \"a\" { match ! new and date > 2 weeks move \"b\" label \"c\" }\nstdin { match all reject }".toUTF8.toList = .ok (b :: bs) :=
+  Proofs.Conf.ok_of_isOkNonempty (by decide +kernel)
+
+/-- A node of an accepted file (hypothesis of `C14_error_classes_tree`). -/
+example : ∃ t, Proofs.Conf.AcceptedNode [] [] (fun _ => true)
+    "stdin { match all exec stdin body \"x\" attachment { match body /p/ exec \"y\" } }".toUTF8.toList t :=
+  Proofs.Conf.acceptedNode_of_ok (by decide +kernel)
+
+/-- The classes are not empty: these files are rejected, on the expected line. -/
+example : parseConfig [] [] (fun _ => true) "stdin {\n match all move \"a\"\n discard }".toUTF8.toList = .error 3 :=
+  Proofs.Conf.error_of_isErrorAt (by decide +kernel)
+example : parseConfig [] [] (fun _ => true) "stdin { match date > 137 years break }".toUTF8.toList = .error 1 :=
+  Proofs.Conf.error_of_isErrorAt (by decide +kernel)
+example : parseConfig [] [] (fun _ => true) "stdin { match all break }\n\nstdin { match all break }".toUTF8.toList = .error 3 :=
+  Proofs.Conf.error_of_isErrorAt (by decide +kernel)
+example : parseConfig [] [] (fun _ => true) "stdin { match all move \"${nosuch}\" }".toUTF8.toList = .error 1 :=
+  Proofs.Conf.error_of_isErrorAt (by decide +kernel)
+example : parseConfig [] [] (fun _ => true) "x = \"1\"\nstdin { match all discard }".toUTF8.toList = .error 1 :=
+  Proofs.Conf.error_of_isErrorAt (by decide +kernel)
+example : parseConfig [] [([120], [49])] (fun _ => true) "stdin { match all discard }".toUTF8.toList = .error 0 :=
+  Proofs.Conf.error_of_isErrorAt (by decide +kernel)
+example : parseConfig [] [] (fun _ => true) "maildir \"a\" { match all reject }".toUTF8.toList = .error 1 :=
+  Proofs.Conf.error_of_isErrorAt (by decide +kernel)
+example : parseConfig [] [] (fun _ => true) "stdin { match all exec body \"x\" }".toUTF8.toList = .error 1 :=
+  Proofs.Conf.error_of_isErrorAt (by decide +kernel)
+
+/-- Error class "exec options cannot be repeated": a second `stdin` (or `body`) among the options of an
+`exec` action is diagnosed on its own line, whatever follows. -/
+theorem C14_error_exec_option_repeated (cx : PCtx) (fuel : Nat) (si bo : Bool) (s : PState) :
+    (s.la = some (.kw .stdin) → si = true → parseExecFlags cx (fuel + 1) si bo s = .err s.tokLine { s with la := none }) ∧
+    (s.la = some (.kw .body) → bo = true → parseExecFlags cx (fuel + 1) si bo s = .err s.tokLine { s with la := none }) :=
+  Proofs.Conf.exec_option_repeated cx fuel si bo s
+
+/-- Error class "macro already defined": a second definition of a macro of the file, and any definition
+of `path`, is refused by the macro table (`parseMacroDef` then reports the diagnostic). -/
+theorem C14_error_macro_redefined (ms : List Macro) (name value : Bytes) (lno : Nat) :
+    (isPathMacro name = true → macrosInsert ms name value lno false = none) ∧
+    ((∃ m ∈ ms, m.name = name) → (∀ m ∈ ms, m.name = name → m.sticky = false) → macrosInsert ms name value lno false = none) :=
+  Proofs.Conf.macro_redefined ms name value lno
+
+example : parseConfig [] [] (fun _ => true) "a = \"1\"\na = \"2\"\nstdin { match all move \"${a}\" }".toUTF8.toList = .error 2 :=
+  Proofs.Conf.error_of_isErrorAt (by decide +kernel)
+example : parseConfig [] [] (fun _ => true) "stdin { match all exec stdin\nstdin \"x\" }".toUTF8.toList = .error 2 :=
+  Proofs.Conf.error_of_isErrorAt (by decide +kernel)
+
+/-! ## Acceptance: what the grammar writes is read back -/
+
+/-- The full statement, for the printer `Spec.printBlocks` (one line, tokens separated by blanks, every
+binary condition in parentheses, every list of strings in braces, ages in seconds, patterns between
+slashes): every well-formed list of blocks reads back as itself, all nodes on line 1. -/
+def C14_accepts_grammar_full : Prop :=
+  ∀ (home : Bytes) (rxOk : Pat → Bool) (bs : List PBlock), (∀ b ∈ bs, Spec.blockOK rxOk b = true) →
+    parseConfig home [] rxOk (Spec.printBlocks bs) = .ok (bs.map Spec.relabelBlock)
+
+/-- It is false as it stands: strings are written verbatim, and a string holding a macro reference
+(here `move "${x}"`) does not mean itself - the file is rejected ("unknown macro"). -/
+theorem C14_accepts_grammar_full_false : ¬ C14_accepts_grammar_full := by
+  intro h
+  have := h [] (fun _ => true)
+    [{ paths := [stdinStr], tree := .block 1 (.mtch 1 (.leaf (.all 1)) (.leaf (.move 1 [36, 123, 120, 125]))) }]
+    (by decide +kernel)
+  have he : Proofs.Conf.isErrorAt 1 (parseConfig [] [] (fun _ => true) (Spec.printBlocks
+    [{ paths := [stdinStr], tree := .block 1 (.mtch 1 (.leaf (.all 1)) (.leaf (.move 1 [36, 123, 120, 125]))) }])) = true := by
+    decide +kernel
+  rw [this] at he
+  cases he
+
+/-- Acceptance (partial): every configuration in `Spec.ConfOK` - well-formed trees of any shape and
+depth (conditions with `and`, `or`, `!`, `attachment`, all eight kinds of condition, nested blocks, all
+eleven actions including `attachment { }` blocks, any number of `maildir` blocks and one `stdin` block)
+whose strings are non-empty, shorter than 8191 bytes, without NUL, newline or `$`, not starting with `~`
+and not ending in a backslash, whose patterns have no NUL, newline, `/` or backslash and not both `l` and
+`u`, whose ages are below 2^32 and whose `flag` targets are `new` / `cur` - is accepted when written by
+`Spec.printBlocks`, and the parser returns exactly its trees, every node on line 1.  Not covered:
+macros and `~` (strings with `$`), other layouts (several lines, comments, other units, other
+delimiters, bare single strings), and - for the real parser only - trees nested deeper than bison's
+stack. -/
+theorem C14_accepts_grammar_partial (home : Bytes) (rxOk : Pat → Bool) (bs : List PBlock)
+    (hok : Spec.ConfOK rxOk bs = true) :
+    parseConfig home [] rxOk (Spec.printBlocks bs) = .ok (bs.map Spec.relabelBlock) :=
+  Proofs.Conf.printBlocks_roundtrip home rxOk bs hok
+
+/-- The same for the evaluator's trees (`Model.ConfBlock`, `Model.Expr`). -/
+theorem C14_accepts_grammar_partial_expr (home : Bytes) (rxOk : Pat → Bool) (c : List ConfBlock)
+    (hok : Spec.ConfOK rxOk (c.map fun b => { paths := b.paths, tree := CTree.ofExpr b.expr }) = true) :
+    parseConfig home [] rxOk (Spec.printConf c) =
+      .ok (c.map fun b => { paths := b.paths, tree := Spec.relabel (CTree.ofExpr b.expr) }) := by
+  have := Proofs.Conf.printBlocks_roundtrip home rxOk _ hok
+  simpa [Spec.printConf, Spec.relabelBlock, List.map_map, Function.comp_def] using this
+
+/-- Non-vacuity: a configuration in `Spec.ConfOK` with a nested block, an attachment block, a pattern
+with flags, a date, several actions, a second block reading from stdin with `reject`. -/
+example : Spec.ConfOK (fun _ => true)
+    [{ paths := [[97], [98, 47, 99]],
+       tree := .block 1 (.or 1
+         (.mtch 1 (.and 1 (.neg 1 (.leaf (.new 1))) (.or 1 (.leaf (.header 1 [[84, 111]] { src := [117, 40, 115, 41], icase := true }))
+                    (.leaf (.date 1 .modified .gt 1209600))))
+           (.and 1 (.and 1 (.leaf (.move 1 [100])) (.leaf (.label 1 [[120], [121]]))) (.leaf (.pass 1))))
+         (.mtch 1 (.attachment 1 (.leaf (.body 1 { src := [112, 100, 102], ucase := true })))
+           (.block 1 (.mtch 1 (.leaf (.all 1))
+             (.and 1 (.leaf (.exec 1 true true [[99, 97, 116]]))
+               (.attBlock 1 (.block 1 (.mtch 1 (.leaf (.old 1)) (.leaf (.exec 1 false false [[108, 112, 114]])))))))))) },
+     { paths := [stdinStr], tree := .block 1 (.mtch 1 (.leaf (.command 1 [[116]])) (.leaf (.reject 1))) }] = true := by
+  decide +kernel
 
 end Mdsort.Props
